@@ -31,6 +31,8 @@ def _single(kappa, kill, n):
         escaped = True
     except S.Kill:
         escaped = True
+    if escaped and w.crashed_at is None:
+        return 'clean_run_raised'
     return S.judge(w, out, n, escaped)
 
 
@@ -43,15 +45,18 @@ def _l1_single(kappa: int, kill: bool, n: int) -> bool:
     return _single(None if kappa < 0 else kappa, kill, n) is None
 
 
-def _multi(kappa, kill, njobs, empty_mask):
-    w = S.World(kappa, kill)
+def _multi(kappa, kill, njobs, empty_mask, etype=0):
+    """real tag_multiome_multi_processing (serial driver) + real tagging.run_tagging_tasks; environment = step world"""
+    import contextlib
+    import singlecellmultiomics.universalBamTagger.tagging as TG
+    w = S.World(kappa, kill, etype)
     _install(w)
     out = 'dir/out.bam'
     w.status[out.replace('.bam', '.status.txt')] = 'unfinished\n'
 
     class P:
         def exists(self, p):
-            return True
+            return p == 'tmp'
 
         def join(self, *a):
             return '/'.join(a)
@@ -63,30 +68,58 @@ def _multi(kappa, kill, njobs, empty_mask):
             w.step('mkdir')
     BT.os = OSs()
     BT.get_contigs_with_reads = lambda path, with_length=False: iter([('c%d' % i, 200000) if with_length else 'c%d' % i for i in range(njobs - 1)])
-    produced = []
+    jobs_run = []
 
-    def run_tagging_tasks(task):
-        w.step('worker')
-        j = len(produced)
+    class AF:
+        def __init__(self, path, *a, **k):
+            w.step('worker_open_input')
+
+        def __enter__(self):
+            return self
+
+        def __exit__(self, *a):
+            return False
+
+    @contextlib.contextmanager
+    def sorted_bam_file(path, **kw):
+        w.step('worker_open_output')
+        w.files[path] = dict(records=[], sorted=False, closed=False, rg=True)
+        yield w.files[path]['records']
+        w.step('worker_sort_index')
+        w.files[path]['sorted'] = True
+        w.files[path]['closed'] = True
+        w.files[path + '.bai'] = dict(records=[], sorted=True, closed=True, rg=True)
+
+    def run_tagging_task(alignments, output, **kw):
+        w.step('worker_task')
+        j = len(jobs_run)
+        jobs_run.append(j)
         if (empty_mask >> j) & 1:
-            produced.append(None)
-            return None, {'total_molecules': 0, 'timeout_tasks': []}
-        p = 'tmp/job%d.bam' % j
-        w.files[p] = dict(records=['rec%d' % j], sorted=True, closed=True, rg=True)
-        produced.append(p)
-        return p, {'total_molecules': 1, 'timeout_tasks': []}
-    BT.run_tagging_tasks = run_tagging_tasks
+            return {'total_molecules_written': 0}
+        output.append('rec%d' % j)
+        return {'total_molecules_written': 1}
+
+    def remove(p):
+        w.step('worker_remove_empty')
+        w.files.pop(p, None)
+    TG.AlignmentFile, TG.sorted_bam_file, TG.run_tagging_task, TG.remove = AF, sorted_bam_file, run_tagging_task, remove
+
+    class TOS:
+        path = P()
+    TG.os = TOS()
 
     def merge_bams(bams, output_path, threads=None):
         w.step('merge')
         recs = []
-        for b in bams:
-            recs += w.files[b]['records']
+        for b_ in bams:
+            if not (b_ in w.files and (b_ + '.bai') in w.files):
+                raise AssertionError('Only indexed files can be merged')
+            recs += w.files[b_]['records']
         w.step('merge_index')
         w.files[output_path] = dict(records=sorted(recs), sorted=True, closed=True, rg=True)
         w.files[output_path + '.bai'] = dict(records=[], sorted=True, closed=True, rg=True)
     BT.merge_bams = merge_bams
-    BT.sleep = lambda s: None
+    BT.sleep = lambda s_: None
 
     class Sh:
         def rmtree(self, *a, **k):
@@ -96,9 +129,9 @@ def _multi(kappa, kill, njobs, empty_mask):
     try:
         BT.tag_multiome_multi_processing('in.bam', out, molecule_iterator_args={}, fragment_size=500, bp_per_job=1000, bp_per_segment=500,
                                          temp_folder_root='tmp', use_pool=False, one_contig_per_process=True, additional_args={}, n_threads=1)
-    except S.Crash:
-        escaped = True
     except S.Kill:
+        escaped = True
+    except Exception:
         escaped = True
     status, files = w.final()
     st = status.get(out.replace('.bam', '.status.txt'))
@@ -106,6 +139,8 @@ def _multi(kappa, kill, njobs, empty_mask):
     exp = sorted('rec%d' % j for j in range(njobs) if not (empty_mask >> j) & 1)
     f = files.get(out)
     complete = f is not None and f['sorted'] and (out + '.bai') in files and f['records'] == exp
+    if escaped and w.crashed_at is None:
+        return 'multi.clean_run_raised'
     if ok and not complete:
         return 'multi.ok_status_incomplete_output@%s' % (w.crashed_at,)
     if escaped and ok:
@@ -115,14 +150,65 @@ def _multi(kappa, kill, njobs, empty_mask):
     return None
 
 
-def _l2_multi(kappa: int, kill: bool, njobs: int, empty_mask: int) -> bool:
+def _rerun(kappa, kill, etype, bad_suffix):
+    """a re-run onto an existing, successfully finished output that fails during set-up (unknown method): real run_multiome_tagging prologue"""
+    w = S.World(kappa, kill, etype)
+    _install(w)
+    out = 'dir/out.bam' if not bad_suffix else 'dir/out.bamx'
+
+    class P:
+        def exists(self, p):
+            return p in w.files
+
+    class OSs:
+        path = P()
+
+        def remove(self, p):
+            w.step('remove_old_output')
+            w.files.pop(p, None)
+    BT.os = OSs()
+    BT.verify_and_fix_bam = lambda p: w.step('verify_input')
+    BT.get_reference_from_pysam_alignmentFile = lambda a: None
+    w.files['dir/out.bam'] = dict(records=['old0', 'old1'], sorted=True, closed=True, rg=True)
+    w.files['dir/out.bam.bai'] = dict(records=[], sorted=True, closed=True, rg=True)
+    w.status['dir/out.status.txt'] = S.OK
+    args = BT.argparser.parse_args(['in.bam', '-o', out, '-method', 'bogus_method'])
+    escaped = False
+    try:
+        BT.run_multiome_tagging(args)
+    except S.Kill:
+        escaped = True
+    except Exception:
+        escaped = True
+    if not escaped:
+        return 'rerun.no_error_for_unknown_method'
+    status, files = w.final()
+    ok = status.get('dir/out.status.txt') == S.OK
+    f = files.get('dir/out.bam')
+    complete = f is not None and f['sorted'] and ('dir/out.bam.bai' in files) and f['records'] == ['old0', 'old1']
+    if ok and not complete:
+        return 'rerun.stale_ok_status_output_gone@%s' % (w.crashed_at,)
+    return None
+
+
+def _l3_rerun(kappa: int, kill: bool, etype: int, bad_suffix: bool) -> bool:
     """
-    pre: -1 <= kappa <= 14
-    pre: 1 <= njobs <= 3
-    pre: 0 <= empty_mask <= 7
+    pre: -1 <= kappa <= 8
+    pre: 0 <= etype <= 5
     post: _
     """
-    return _multi(None if kappa < 0 else kappa, kill, njobs, empty_mask) is None
+    return _rerun(None if kappa < 0 else kappa, kill, etype, bad_suffix) is None
+
+
+def _l2_multi(kappa: int, kill: bool, njobs: int, empty_mask: int, etype: int) -> bool:
+    """
+    pre: -1 <= kappa <= 24
+    pre: 1 <= njobs <= 3
+    pre: 0 <= empty_mask <= 7
+    pre: 0 <= etype <= 5
+    post: _
+    """
+    return _multi(None if kappa < 0 else kappa, kill, njobs, empty_mask, etype) is None
 
 
 _T = {'quick': 120, 'thorough': 600}
@@ -131,14 +217,17 @@ LEMMAS = [
          cases={'quick': [dict(id='n%d_%s' % (n, 'kill' if k else 'exc'), pre=['n == %d' % n, 'kill == %s' % k]) for n in (0, 1, 2) for k in (False, True)],
                 'thorough': [dict(id='n%d_%s' % (n, 'kill' if k else 'exc'), pre=['n == %d' % n, 'kill == %s' % k]) for n in (0, 1, 2, 3) for k in (False, True)]}),
     dict(name='L2_multi_process', fn='_l2_multi', engine='E1', timeout=_T, replay='replay.C20:replay',
-         cases={'quick': [dict(id='j%d_%s' % (j, 'kill' if k else 'exc'), pre=['njobs == %d' % j, 'kill == %s' % k]) for j in (1, 2, 3) for k in (False, True)]}),
+         cases={'quick': [dict(id='j%d_kill' % j, pre=['njobs == %d' % j, 'kill == True', 'etype == 0']) for j in (1, 2, 3)] +
+                         [dict(id='j%d_exc%d' % (j, e), pre=['njobs == %d' % j, 'kill == False', 'etype == %d' % e]) for j in (1, 2) for e in range(6)] +
+                         [dict(id='j3_exc%d' % e, pre=['njobs == 3', 'kill == False', 'etype == %d' % e]) for e in (0, 1)]}),
+    dict(name='L3_failed_rerun', fn='_l3_rerun', engine='E1', timeout=_T, replay='replay.C20:replay'),
 ]
 
 PROPERTY = dict(
-    functions=['bamtagmultiome.tag_multiome_single_thread', 'bamtagmultiome.tag_multiome_multi_processing (use_pool=False serial driver)',
-               'bamtagmultiome.write_status', 'bamFunctions.sorted_bam_file', 'bamFunctions.sort_and_index'],
+    functions=['bamtagmultiome.tag_multiome_single_thread', 'bamtagmultiome.tag_multiome_multi_processing (use_pool=False serial driver)', 'tagging.run_tagging_tasks (real worker wrapper)',
+               'bamtagmultiome.write_status', 'bamtagmultiome.run_multiome_tagging (set-up part, up to the method dispatch)', 'bamFunctions.sorted_bam_file', 'bamFunctions.sort_and_index'],
     bounds=dict(crash_point='symbolic index over every step boundary (<=25 single, <=15 multi), plus "no crash"', molecules='0..2 (thorough 3)',
-                jobs='1..3 with any subset producing no output', flavours='exception (handlers/context managers run) and kill (world snapshotted at the step)'),
+                jobs='1..3 with any subset producing no output', flavours='exception of 6 types: custom, ValueError, KeyError, OSError, RuntimeError, IndexError (handlers/context managers run) and kill (world snapshotted at the step)'),
     outside=['real process death between write() and data reaching disk', 'htslib sort/index/merge internals (steps that either complete or fail)',
              'cluster submission mode', 'multiprocessing.Pool worker death (the serial driver is executed)'],
     assumptions=['every environment operation is atomic: it either happens completely or fails before any effect',
